@@ -7,6 +7,8 @@
      code 10: the key function of std.min / max / sorted(_by_key) changed the key set of the table
              the library function is going through: outside the domain of the semantics (the
              implementation iterates the live table there; see known_findings.json)
+     code 11: a disagreement on a program of the class [RefScope.leaky] (a captured local that is
+             not the top stack slot when its loop-body scope ends stays open: known finding)
    Resource errors of the implementation (Timeout, Stackoverflow, CallStackOverflow,
    OutOfMemory) are not predicted: such cases are skipped (the harness counts them). *)
 From Cao Require Export CheckUtil CardAst RefSem RefScope.
@@ -104,7 +106,7 @@ Definition check1 (c : c01case) : list N :=
           match eval_program check_fuel m host with
           | PObs o' =>
               (if okind_eqb k (ob_kind o') && globals_agree g (ob_globals o') && log_eqb l (ob_log o')
-               then [] else [2])
+               then [] else if leaky m then [11] else [2])
           | PFuel => [3]
           | PUnspec 12 => [10]
           | PUnspec _ => [3]
